@@ -108,4 +108,45 @@ def Replay (S : List UInt8) : Nat → List SG → Prop
     pos + g.skip.toNat + g.new.length ≤ S.length ∧
     Replay S (pos + g.skip.toNat + g.new.length) rest
 
+/-! ### pool level (C11) -/
+
+/-- run a whole history on the pool -/
+def run (A : Arith) : St → List Op → Res (St × List Ev)
+  | st, [] => .ok (st, [])
+  | st, op :: rest =>
+    match step A st op with
+    | .ok rp =>
+      match run A rp.st rest with
+      | .ok (st', evs) => .ok (st', rp.evs ++ evs)
+      | .err k => .err k
+      | .panic k => .panic k
+    | .err k => .err k
+    | .panic k => .panic k
+
+
+/-- Scan the callbacks that concern stream `sid`.  State: "ReassemblyComplete was already called".
+    `none` = a ReassembledSG or a second ReassemblyComplete arrived after the completion. -/
+def lifeScan (sid : Nat) : Bool → List Ev → Option Bool
+  | b, [] => some b
+  | b, .created _ _ :: rest => lifeScan sid b rest
+  | b, .sg _ s _ _ :: rest => if s = sid then (if b then none else lifeScan sid b rest) else lifeScan sid b rest
+  | b, .done _ s _ :: rest => if s = sid then (if b then none else lifeScan sid true rest) else lifeScan sid b rest
+
+def doneCount (sid : Nat) (evs : List Ev) : Nat :=
+  (evs.filter (fun e => match e with | .done _ s _ => s = sid | _ => false)).length
+
+def findSid (sid : Nat) : List Conn → Option Conn
+  | [] => none
+  | c :: rest => if c.sid = sid then some c else findSid sid rest
+
+def Conn.done (c : Conn) : Bool := c.c2s.closed && c.s2c.closed
+
+/-- stream `sid` has been created and its connection is finished (both directions closed, or already removed) -/
+def doneOpt : Option Conn → Bool
+  | some c => c.done
+  | none => true
+
+def completed (st : St) (sid : Nat) : Bool :=
+  decide (sid < st.nextSid) && doneOpt (findSid sid st.conns)
+
 end Gp.Reasm
